@@ -244,6 +244,12 @@ func boundsRun(c *Ctx, entries []*ssa.Function, hooks *bounds.Hooks) int {
 				famUsed[familyOf(rule, via, t)] += familyWeight(rule, t)
 				continue
 			}
+			if c.undecidedCTR != nil && rule == "BOUNDS.CTR" {
+				if why := c.undecidedCTR(fname, t); why != "" {
+					r.Infof("%s %s: %s: not decided — %s", rule, fname, t, why)
+					continue
+				}
+			}
 			pend = append(pend, pendOb{rule, fname, cons, p.Position(o.Pos), detail, familyOf(rule, via, t)})
 		}
 	}
